@@ -6,6 +6,7 @@
    the order of find_file's steps - regenerated from static.py; staticlab. *)
 From Coq Require Import List String Ascii Bool Arith.
 Import ListNotations.
+From ClasticV Require Import Gen.MiscShape.
 From ClasticV Require Import Base.Py Base.Strs Model.Static Gen.StaticGuards Proofs.StaticProofs.
 Local Open Scope string_scope.
 Local Open Scope list_scope.
@@ -76,3 +77,98 @@ Example C14_example :
   find_file (fun _ => true) ["/srv/www"] "/etc/passwd" = Raise "ValueError" /\
   find_file (fun _ => true) ["/srv/www"] "..data/x" = Raise "ValueError".
 Proof. vm_compute. repeat split; reflexivity. Qed.
+
+(* obligation on the source: the functions of static.py that Model/Static.v and the regenerated guard table describe, statement by statement *)
+Theorem C14_static_shape :
+  SK_STATIC_IS_BINARY_STRING =
+  ["if len(byte_string) > sample_size";
+   "  byte_string = byte_string[:sample_size]";
+   "bin_chars = byte_string.translate(None, _PRINTABLE)";
+   "return bool(bin_chars)"] /\
+  SK_STATIC_PEEK_FILE =
+  ["if not callable(getattr(file_obj, 'seek', None))";
+   "  raise TypeError('expected seekable file object, not %r' % (file_obj,))";
+   "cur_pos = file_obj.tell()";
+   "peek_data = file_obj.read(size)";
+   "file_obj.seek(cur_pos)";
+   "return peek_data"] /\
+  SK_STATIC_FIND_FILE =
+  ["rel_path = os.path.normpath(path)";
+   "if limit_root";
+   "  if rel_path.startswith('/')";
+   "    raise ValueError('expected relative path, not %r' % path)";
+   "  if IS_WINDOWS and ':' in path";
+   "    raise ValueError('unexpected colon in path: %r' % path)";
+   "  if rel_path.startswith(os.pardir)";
+   "    raise ValueError('attempted to access beyond root directory')";
+   "for sr in search_paths";
+   "  full_path = pjoin(sr, rel_path)";
+   "  if isfile(full_path)";
+   "    return full_path";
+   "else";
+   "  return None"] /\
+  SK_STATIC_GET_FILE_MTIME =
+  ["unix_mtime = round(os.path.getmtime(path), rounding)";
+   "return datetime.utcfromtimestamp(unix_mtime)"] /\
+  SK_STATIC_BUILD_FILE_RESPONSE =
+  ["resp = response_type('')";
+   "if cache_timeout and cached_modify_time";
+   "  try";
+   "    mtime = get_file_mtime(path)";
+   "  except (ValueError, IOError, OSError)";
+   "    raise Forbidden(is_breaking=False)";
+   "  resp.cache_control.public = True";
+   "  if mtime <= cached_modify_time";
+   "    resp.status_code = 304";
+   "    resp.cache_control.max_age = cache_timeout";
+   "    return resp";
+   "if not isfile(path)";
+   "  raise NotFound(is_breaking=False)";
+   "try";
+   "  file_obj = open(path, 'rb')";
+   "  mtime = get_file_mtime(path)";
+   "  fsize = os.path.getsize(path)";
+   "except (ValueError, IOError, OSError)";
+   "  raise Forbidden(is_breaking=False)";
+   "if not mimetype";
+   "  mimetype, encoding = mimetypes.guess_type(path)";
+   "if not mimetype";
+   "  try";
+   "    peeked = peek_file(file_obj, 1024)";
+   "  except (ValueError, IOError, OSError)";
+   "    file_obj.close()";
+   "    raise Forbidden(is_breaking=False)";
+   "  is_binary = is_binary_string(peeked)";
+   "  if peeked and is_binary";
+   "    mimetype = default_binary_mime";
+   "  else";
+   "    mimetype = default_text_mime";
+   "resp.response = file_wrapper(file_obj)";
+   "resp.content_type = mimetype";
+   "resp.content_length = fsize";
+   "resp.last_modified = mtime";
+   "resp.cache_control.max_age = cache_timeout";
+   "return resp"] /\
+  SK_STATICAPPLICATION_INIT =
+  ["if isinstance(search_paths, (str, bytes))";
+   "  search_paths = [search_paths]";
+   "self.search_paths = search_paths";
+   "self.cache_timeout = cache_timeout";
+   "self.default_text_mime = default_text_mime";
+   "self.default_binary_mime = default_binary_mime";
+   "routes = [('/<path*>', self.get_file_response)]";
+   "super(StaticApplication, self).__init__(routes)"] /\
+  SK_STATICAPPLICATION_GET_FILE_RESPONSE =
+  ["try";
+   "  if not isinstance(path, (str, bytes))";
+   "    path = '/'.join(path)";
+   "  full_path = find_file(self.search_paths, path)";
+   "  if full_path is None";
+   "    raise NotFound(is_breaking=False)";
+   "except (ValueError, IOError, OSError)";
+   "  raise Forbidden(is_breaking=False)";
+   "bfr = build_file_response";
+   "resp = bfr(full_path, cache_timeout=self.cache_timeout, cached_modify_time=request.if_modified_since, mimetype=None, default_text_mime=self.default_text_mime, default_binary_mime=self.default_binary_mime, file_wrapper=request.environ.get('wsgi.file_wrapper', FileWrapper))";
+   "return resp"].
+Proof. repeat split; reflexivity. Qed.
+Print Assumptions C14_static_shape.
